@@ -40,10 +40,15 @@ CLAIMED = {
     'C06': dict(text='Proved: C06_eq_hash (== implies equal hash input for every field selection determined by ==), C06_symm, C06_refl; generated '
                      'obligations C06_hashSpecFields_ok / C06_hashNodeFields_ok / C06_eqFields_ok re-check hashing.cpp and richcomparison.cpp on every run.' + PARTIAL,
                 technique='Lean 4 proof with obligations regenerated from the source (translator) + correspondence', ref='6 C06'),
-    'C07': dict(text='Proved (partial): C07_guards, C07_leaf_is_prefix, C07_flatten_up_to_leaf, C07_kind_mismatch_value_error, '
-                     'C07_dict_keyset_mismatch. The full equivalence flatten_up_to <=> is_prefix <=> prefix_errors and the order laws are covered '
-                     'by the array-level model through correspondence and by an independent reference prefix relation in the oracle.' + PARTIAL,
-                technique='Lean 4 proof (partial) + correspondence against the array-level model + reference oracle', ref='6 C07'),
+    'C07': dict(text='Proved for all well-formed shapes (STree, Model/STree.lean) of any size and nesting: C07_is_prefix_refines - the array walk of '
+                     'PyTreeSpec::IsPrefix over the post-order encodings, including the cut-and-reorder of dict children whose key orders differ '
+                     '(cutSegments / reorderSegments), decides exactly the tree-level prefix relation STree.prefixB (children of dict kinds paired by '
+                     'key), strict form = some leaf covers an internal node; C07_is_prefix_iff, C07_is_prefix_strict_iff, C07_is_prefix_total (never '
+                     'InternalError), C07_prefix_not_larger; plus C07_guards, C07_leaf_is_prefix, C07_flatten_up_to_leaf, '
+                     'C07_kind_mismatch_value_error, C07_dict_keyset_mismatch. That every node array of the real engine is such an encoding is checked '
+                     'by the correspondence stream ((is_enc ...) lines). Agreement of flatten_up_to and prefix_errors with is_prefix, and the order laws: '
+                     'array-level model through correspondence plus an independent reference prefix relation in the oracle.' + PARTIAL,
+                technique='Lean 4 proof (refinement of the array walk to a tree-level relation, mutual structural induction) + correspondence + reference oracle', ref='6 C07'),
     'C08': dict(text='Proved: C08_normIndex_none/some (Python index semantics), C08_child_index_error, C08_entry_of_entries, C08_one_level, '
                      'C08_compose_counts, C08_compose_rejects, C08_transform_none, C08_make_leaf_none, C08_repr_affixes. children()/constructors/'
                      'transform rebuild laws: correspondence (5000+ lines per run) + oracle.' + PARTIAL,
@@ -87,9 +92,12 @@ CLAIMED = {
                      'threshold in flatten_with_path); C16_loops_safe / C16_unsafe_loop_faults (a loop over a user container with re-entrant '
                      'callbacks faults under some adversary iff it is an unchecked access to a shared mutable container; all adversaries, all '
                      'lengths); C16_guarded_walk_safe / C16_unguarded_walk_faults (recursive walkers vs. C stack); generated obligations '
-                     'C16_access_sites_safe, C16_recursive_walkers_guarded, C16_same_guard re-read pytypes.h (for the running Python version), '
-                     'flatten.cpp, traversal.cpp, constructor.cpp, treespec.cpp on every run. The machine itself (out-of-bounds reads, '
-                     'use-after-free, stack use) is not modelled: each cell of the mutation / confusion / deep-treespec grids runs in a forked '
+                     'C16_access_sites_safe, C16_index_sites_bounded (every unchecked item access is indexed by a literal, a for-variable over the '
+                     "container's own size, or a counter compared with the bound first; with C16_entries_loop_safe / "
+                     "C16_entries_loop_unguarded_faults for the counter-indexed entries tuple), C16_recursive_walkers_guarded, C16_same_guard re-read "
+                     'pytypes.h (for the running Python version), flatten.cpp, traversal.cpp, constructor.cpp, treespec.cpp on every run. The machine '
+                     'itself (out-of-bounds reads, use-after-free, stack use) is not modelled: each cell of the mutation / malformed-flatten-return / '
+                     'confusion / deep-treespec grids runs in a forked '
                      'child (process death = failure); thorough repeats them on an ASan+UBSan build.' + PARTIAL,
                 technique='Lean 4 proof (depth induction, adversarial loop machine) with obligations regenerated from the source + correspondence + forked crash grid (ASan in thorough)', ref='6 C16'),
     'C17': dict(text='Proved: C17_deadlock_free (threads under the GIL with engine mutexes that block while holding it: if no lock program '
@@ -109,8 +117,11 @@ CLAIMED = {
                 technique='Lean 4 proof (twin equivalence + cache invariant) with obligations regenerated from the source + correspondence', ref='6 C18'),
     'C19': dict(text='Proved about the model of optree/dataclasses.py and optree/functools.py: C19_partition (children / metadata partition in '
                      'declaration order), C19_rejects, C19_entries, C19_roundtrip_kwargs (the constructor receives every init field once with its '
-                     'value), C19_partial_roundtrip, C19_call_after_map. dataclasses.dataclass itself is not modelled: the implementation oracle '
-                     'compares with the stdlib decorator, re-runs __post_init__, checks namespace isolation and nested partials.' + PARTIAL,
+                     'value), C19_partition_options_irrelevant (slots / frozen / kw_only / order, per-field kw_only / defaults / inheritance and the '
+                     'route decorator vs make_dataclass do not enter the partition), C19_partial_roundtrip, C19_call_after_map. '
+                     'dataclasses.dataclass itself is not modelled: the implementation oracle builds the same declaration with the stdlib (both '
+                     'routes, all option combinations) and compares fields, signature, slots / frozen / order / eq / match_args, repr, re-runs '
+                     '__post_init__, checks the class of the rebuilt object, namespace isolation and nested partials.' + PARTIAL,
                 technique='Lean 4 proof about the dataclasses.py / functools.py model + correspondence + differential oracle against the stdlib', ref='6 C19'),
     'C20': dict(text='Proved for every array library obeying the recorded concat/reshape/cast contract: C20_ravel_concat, C20_empty, '
                      'C20_unravel_ravel_single, C20_unravel_ravel_mixed, C20_ravel_unravel_single, C20_rejects (splitSizes lemmas, no size bound). '
